@@ -574,8 +574,9 @@ def run_check(prop, tier, seed, cfg, rundir, t0, replay_file):
         if r.diffs:
             c, m, i = r.diffs[0]
             # a diff on a case whose oracle already failed (and is reported / known) is the same event
+            mine = [prop] + cfg.get("alias_props", [])
             unexplained = [(c, m, i) for (c, m, i) in r.diffs
-                           if not (m and any(m["viol"][j] for j in range(len(m["viol"]))))]
+                           if not (m and any(v.split(" ")[0] in mine for j in range(len(m["viol"])) for v in m["viol"][j]))]
             if unexplained:
                 c, m, i = unexplained[0]
                 corr_broken.append(f"suite {r.name}: {len(unexplained)} case(s) differ; first: case {c['id']} op#{i} "
